@@ -60,6 +60,11 @@ func (r *yieldRewriter) rewriteRanges(block *ast.BlockStmt) {
 				do(cstNewChanIter, n.X)
 			case *types.Signature:
 				panic("implement me: range func")
+			default:
+				// e.g., pointer to array, type parameter
+				// left as native range stmt, so yield must not be called in it
+				noYield := !r.rewriter.containsYield(r.pkg, n.Body)
+				r.assert(noYield, n, "range over %s with yield not supported", ty)
 			}
 		}
 		return true
